@@ -74,6 +74,10 @@ class CaseResult:
         self.classes.extend(labels)
 
 
+class StopShard(Exception):
+    """raised by ShardResult.add during a history replay once the prefix has been executed"""
+
+
 class ShardResult:
     def __init__(self, name):
         self.name = name
@@ -87,9 +91,12 @@ class ShardResult:
         self.exhaustive = None
         self.extra = {}
         self.wall = 0.0
-        self.stop_after = None   # history replay: stop generating after this case index
+        self.stop_after = None   # history replay: stop generating after this case index (Hypothesis shards)
+        self.stop_after_seq = None   # history replay: stop after this many cases (any shard kind)
 
     def add(self, case, res, index):
+        if self.stop_after_seq is not None and self.cases >= self.stop_after_seq:
+            raise StopShard()
         self.cases += 1
         self.evaluations += res.evals
         for c in res.classes:
@@ -105,6 +112,7 @@ class ShardResult:
                 g = dict(f)
                 g["case"] = jsonable(case)
                 g["index"] = index
+                g["seq"] = self.cases          # 1-based position of the case in this shard's sequence
                 g["shard"] = self.name
                 self.failures.append(g)
         if (res.nontrivial or res.nt_keys) and len(self.samples) < 3:
@@ -235,7 +243,11 @@ def _worker(args):
             # see whether a failure that does not reproduce on its own depends on the calls made before it
             shard = ShardResult(spec["name"])
             shard.stop_after = extra["index"]
-            mod.run_shard(spec, seed, tier, shard)
+            shard.stop_after_seq = extra.get("seq")
+            try:
+                mod.run_shard(spec, seed, tier, shard)
+            except StopShard:
+                pass
             hits = [f for f in shard.failures if f["bucket"] == extra["bucket"] and f["index"] == extra["index"]]
             return ("ok", hits)
         elif mode == "shrink":
@@ -467,14 +479,14 @@ def run_property(prop_id, tier, seed, only_shards=None, procs=None):
                         break
             if confirmed:
                 break
-        if confirmed is None and spec.get("kind", "").startswith("hyp") and not fast:
+        if confirmed is None and not fast:
             # not reproducible in isolation: does it depend on the history of calls in that worker (state surviving
             # from one call to the next)? Re-run the shard's prefix twice in fresh processes; both must reproduce it.
             hist = []
             for _ in range(2):
                 with _pool(1) as pool:
                     status, payload = pool.apply(_worker, ((prop_id, spec, seed * 1000 + spec["seed_offset"], tier, "prefix",
-                                                            {"bucket": bucket, "index": f0["index"]}),))
+                                                            {"bucket": bucket, "index": f0["index"], "seq": f0.get("seq")}),))
                 if status == "ok" and payload and match_known(mod, known, payload[0]) is None:
                     hist.append(payload[0])
                 else:
@@ -485,7 +497,8 @@ def run_property(prop_id, tier, seed, only_shards=None, procs=None):
                 path = os.path.join("replays", prop_id, safe + ".history.json")
                 with open(os.path.join(ROOT, path), "w") as fh:
                     json.dump({"property": prop_id, "bucket": bucket, "shard": f0["shard"], "spec": jsonable(spec),
-                               "history_replay": {"seed": seed * 1000 + spec["seed_offset"], "upto_index": f0["index"], "tier": tier},
+                               "history_replay": {"seed": seed * 1000 + spec["seed_offset"], "upto_index": f0["index"],
+                                                  "upto_seq": f0.get("seq"), "tier": tier},
                                "case": f0["case"], "failures": [{k: hist[0][k] for k in ("bucket", "clause", "detail")}],
                                "note": "fails only after the preceding cases of this shard were executed in the same process "
                                        "(state carried from one call to the next); reproduced twice in fresh processes"}, fh, indent=1)
@@ -536,7 +549,11 @@ def replay_file(prop_id, path):
         h = data["history_replay"]
         shard = ShardResult(spec["name"])
         shard.stop_after = h["upto_index"]
-        mod.run_shard(spec, h["seed"], h.get("tier", "quick"), shard)
+        shard.stop_after_seq = h.get("upto_seq")
+        try:
+            mod.run_shard(spec, h["seed"], h.get("tier", "quick"), shard)
+        except StopShard:
+            pass
         _stop_loky()
         hits = [f for f in shard.failures if f["bucket"] == data["bucket"] and f["index"] == h["upto_index"]]
         for g in hits:
